@@ -9,8 +9,8 @@
     (rev (flatv s)): the visible log, newest first; [hist_ok me lo ops]: the
     recorded entries have strictly increasing stamps and lines shorter than
     the entry limit. *)
-From Coq Require Import ZArith NArith List Bool.
-From AGH Require Import Base.Run Model.QLogFile Model.QLog Proofs.QLog Proofs.QLogCursor.
+From Coq Require Import ZArith NArith List Bool String.
+From AGH Require Import Base.Run Model.QLogFile Model.QLog Model.QLogCodec Proofs.QLog Proofs.QLogCursor Proofs.QLogCodec.
 Import ListNotations.
 Local Open Scope Z_scope.
 
@@ -203,3 +203,77 @@ Theorem C07_cursor_paging : forall me bf c ops lo p,
     Forall (fun pg => lenZ pg <= p_limit p) pages.
 Proof. exact cursor_paging_run. Qed.
 Print Assumptions C07_cursor_paging.
+
+(** ** The JSON line codec (Model/QLogCodec.v)
+
+    [enc_str] = encoding/json's appendString with HTML escaping (quotes,
+    backslash, control characters, <, >, &, U+2028/9, invalid UTF-8);
+    [quote s] = the string between quotes; [scan] = json.Decoder.Token as a
+    scanner; [utf8_ok] = well-formed UTF-8; [encode] = json.Marshal of a
+    logEntry; [decode] = decodeLogEntry; [read_json_value] = readJSONValue;
+    [quick_line] = searchCriterion.quickMatch on the raw line (as repaired:
+    a raw value holding a backslash is left to the full match);
+    [located line p s]: the value readJSONValue finds for key [p] is the
+    escaped text of [s] up to its closing quote. *)
+
+(** Every well-formed UTF-8 string, whatever characters it holds, is scanned
+    back from its escaped form as exactly that string (induction over the
+    string; all escape classes of appendString). *)
+Theorem C07_string_roundtrip : forall s ts, utf8_ok s = true ->
+  fold_left sstep (quote s) {| toks := ts; md := MBetween |} = {| toks := TStr s :: ts; md := MBetween |}.
+Proof. exact scan_quote. Qed.
+Print Assumptions C07_string_roundtrip.
+
+Theorem C07_string_scan : forall s, utf8_ok s = true -> scan (quote s) = [TStr s].
+Proof. exact scan_string_alone. Qed.
+Print Assumptions C07_string_scan.
+
+Example C07_string_roundtrip_example :
+  let s := (B "a<b>&""\/"%string ++ [1; 9; 10; 31; 127; 208; 191; 226; 128; 168; 240; 159; 152; 128])%N in
+  utf8_ok s = true /\ scan (quote s) = [TStr s] /\ has_bs (quote s) = true.
+Proof. exact string_roundtrip_example. Qed.
+Print Assumptions C07_string_roundtrip_example.
+
+(** What readJSONValue cuts out of an escaped string (for EVERY string, also
+    ill-formed UTF-8): either it holds a backslash, or it is the string. *)
+Theorem C07_raw_value : forall s rest, exists r,
+  until_quote (enc_str s ++ 34%N :: rest) = Some r /\ (has_bs r = false -> r = s).
+Proof. exact until_quote_enc. Qed.
+Print Assumptions C07_raw_value.
+
+(** On a line written by json.Marshal with an RFC3339 time text the first
+    occurrence of the QH key prefix is the key itself. *)
+Theorem C07_host_located : forall e, time_text (slot e sT) = true -> located (encode e) pQH (slot e sQH).
+Proof. exact located_qh. Qed.
+Print Assumptions C07_host_located.
+
+(** The pre-match on the raw line over-approximates the match on the decoded
+    entry WITHOUT any assumption on the characters of host, address and
+    ClientID.  Full statement: *)
+Definition C07_quickmatch_real_lines_statement : Prop := forall c e v a strict,
+  time_text (slot e sT) = true ->
+  term_match c (raw_entry (slot e sQH) (slot e sIP) (slot e sCID)) v a strict = true ->
+  quick_line c (encode e) (CTerm v a strict) = true.
+
+(** Proved with the position of the IP and CID keys as premises (the QH key
+    is located by C07_host_located; the other two are checked by the
+    correspondence on every real line: readJSONValue against the model). *)
+Theorem C07_quickmatch_real_lines_partial : forall c e v a strict,
+  located (encode e) pQH (slot e sQH) -> located (encode e) pIP (slot e sIP) ->
+  located (encode e) pCID (slot e sCID) ->
+  term_match c (raw_entry (slot e sQH) (slot e sIP) (slot e sCID)) v a strict = true ->
+  quick_line c (encode e) (CTerm v a strict) = true.
+Proof. exact quick_line_over_approx. Qed.
+Print Assumptions C07_quickmatch_real_lines_partial.
+
+(** The pre-match as it was before repair 5f4b967 rejects a line whose
+    decoded entry matches (host a&b.example.org, term a&b): the finding. *)
+Example C07_quickmatch_unfixed_refuted :
+  let k := CTerm (B "a&b"%string) [] false in
+  term_match no_clients (raw_entry (slot amp_entry sQH) (slot amp_entry sIP) (slot amp_entry sCID)) (B "a&b"%string) [] false = true /\
+  quick_line_unfixed no_clients (encode amp_entry) k = false /\
+  quick_line no_clients (encode amp_entry) k = true /\
+  snd (decode {| o_time := fun _ => true; o_ip := fun _ => true; o_addr := fun _ => true; o_b64 := fun _ => true |}
+              (encode amp_entry)) = amp_entry.
+Proof. exact quick_unfixed_refuted. Qed.
+Print Assumptions C07_quickmatch_unfixed_refuted.
